@@ -502,12 +502,39 @@ def _advertised_order(tree, what):
     raise TranslateError("%s: backend_info has no statevector_order" % what)
 
 
+def _sampling_loop(tree):
+    """Backend._statevector_to_frequencies, sampled part: the chunk constant and whether the chunk loop still has the
+    shape that Backend.chunk_sizes models.  Never raises for a changed loop (the flag goes false and the theorem over it
+    fails); raises only when the function itself is gone."""
+    f = find_def(tree, "_statevector_to_frequencies", cls="Backend")
+    chunk = None
+    for n in ast.walk(f):
+        if isinstance(n, ast.Assign) and len(n.targets) == 1 and isinstance(n.targets[0], ast.Name) and n.targets[0].id == "chunk_size":
+            v = n.value
+            try:
+                if isinstance(v, ast.BinOp) and isinstance(v.op, ast.Pow) and isinstance(v.left, ast.Constant) and isinstance(v.right, ast.Constant) \
+                        and isinstance(v.left.value, int) and isinstance(v.right.value, int) and 0 <= v.right.value <= 12:
+                    chunk = v.left.value ** v.right.value
+                elif isinstance(v, ast.Constant) and isinstance(v.value, int):
+                    chunk = v.value
+            except Exception:
+                chunk = None
+    src = [ast.unparse(n) for n in ast.walk(f) if isinstance(n, (ast.Assign, ast.For))]
+    want_assign = ["n_chunks = self.n_shots // chunk_size", "this_chunk = self.n_shots % chunk_size if i == n_chunks else chunk_size"]
+    loop = [n for n in ast.walk(f) if isinstance(n, ast.For) and ast.unparse(n.iter) == "range(n_chunks + 1)"]
+    ok = chunk is not None and chunk > 0 and all(w in src for w in want_assign) and len(loop) == 1 \
+        and any(ast.unparse(st) == "samples = distr.rvs(size=this_chunk)" for st in loop[0].body)
+    return {"chunk_size": chunk, "as_modelled": bool(ok)}
+
+
+
 def extract(repo):
     tc = parse(repo / "tangelo/linq/translator/translate_cirq.py")
     ts = parse(repo / "tangelo/linq/translator/translate_sympy.py")
     return {"cirq": _extract_cirq(tc), "sympy": _extract_sympy(ts),
             "cirq_order": _advertised_order(parse(repo / "tangelo/linq/target/target_cirq.py"), "target_cirq.py"),
-            "sympy_order": _advertised_order(parse(repo / "tangelo/linq/target/target_sympy.py"), "target_sympy.py")}
+            "sympy_order": _advertised_order(parse(repo / "tangelo/linq/target/target_sympy.py"), "target_sympy.py"),
+            "sampling": _sampling_loop(parse(repo / "tangelo/linq/target/backend.py"))}
 
 
 # ------------------------------------------------------------------------------------------ emit
@@ -533,7 +560,7 @@ def emit(t):
     c, s = t["cirq"], t["sympy"]
     L = ["(* GENERATED by translator/backend_tables.py from tangelo/linq/translator/translate_cirq.py, translate_sympy.py,",
          "   tangelo/linq/target/target_cirq.py, target_sympy.py — do not edit *)",
-         "From Coq Require Import String List ZArith.",
+         "From Coq Require Import String List ZArith NArith.",
          "From Tangelo Require Import Num.KStruct.",
          "From Tangelo Require Import QSem.State.",
          "From Tangelo Require Import Linq.Backend.",
@@ -554,6 +581,9 @@ def emit(t):
          "Definition cirq_identity_on_each : bool := %s." % _coq_bool(c["identity_on_each"]),
          "Definition cirq_advertised_order : string := %s." % _coq_str(t["cirq_order"]),
          "Definition sympy_advertised_order : string := %s." % _coq_str(t["sympy_order"]),
+         "(* sampled part of Backend._statevector_to_frequencies: chunk constant, loop shape = Backend.chunk_sizes *)",
+         "Definition sampling_chunk_size : N := %d%%N." % (t.get("sampling", {}).get("chunk_size") or 0),
+         "Definition sampling_loop_as_modelled : bool := %s." % _coq_bool(t.get("sampling", {}).get("as_modelled", False)),
          "Definition sympy_iter_reversed : bool := %s." % _coq_bool(s["iter_reversed"]),
          "Definition sympy_mul_right : bool := %s." % _coq_bool(s["mul_right"]),
          "",
@@ -652,7 +682,8 @@ FALLBACK = {'cirq': {'branches': [(['H', 'S', 'SDAG', 'T', 'X', 'Y', 'Z'], 'CNon
                         'rz_gate': [['(cis_z S theta (-1)%Z)', 'k0'], ['k0', '(cis_z S theta (1)%Z)']],
                         'p_gate': [['k1', 'k0'], ['k0', '(cis_z S theta (2)%Z)']]}},
  'cirq_order': 'lsq_first',
- 'sympy_order': 'msq_first'}
+ 'sympy_order': 'msq_first',
+ 'sampling': {'chunk_size': 10000000, 'as_modelled': True}}
 
 
 if __name__ == "__main__":
